@@ -1067,6 +1067,14 @@ def r_enc(prog, tier):
             elif f.fq in ENC_EXEMPT:
                 ok = True
                 why = 'ENC table: ' + ENC_EXEMPT[f.fq]
+            elif enc is not None and any(enc in ('%s.dest_enc' % p_, '%s.src_enc' % p_) for p_ in f.params):
+                # a worker of a driver: it is handed the parsed command line and takes the encoding from there
+                want = 'dest_enc' if ('w' in mode or 'a' in mode) else 'src_enc'
+                ok = enc.endswith('.' + want)
+                why = 'encoding=%s' % enc if ok else 'opened with encoding=%s, the command line asks for %s' % (enc, want)
+            elif enc is not None:
+                ok = None
+                why = 'encoding=%s: where it comes from is not followed' % enc
             else:
                 ok = False
                 why = 'text-mode open in a function without encoding parameter and not in the exemption table'
